@@ -144,15 +144,23 @@ fn c03_case(ctx: &mut Ctx, rng: &mut Rng, i: u64) {
     let mut budget: u64 = 0;
     let constant = rng.chance(300);
     let c0 = *rng.pick(&choices);
+    // some chains also carry (real, short) time limits: a read that times out short of its size limit must be resumable
+    let with_time = rng.chance(250);
     while budget < total + 10 && chain.len() < 20_000 {
         let s = if constant { c0 } else { *rng.pick(&choices) };
         budget += s as u64;
-        chain.push(Limit { size: Some(s), time: None });
+        let t = if with_time && rng.chance(500) { Some(Duration::from_millis(rng.range(1, 4))) } else { None };
+        if t.is_some() {
+            budget = budget.saturating_sub(s as u64 / 2); // a timed-out read may return less: allow for more reads
+        }
+        chain.push(Limit { size: Some(s), time: t });
     }
     // then large limits until end-of-file is reported
     for _ in 0..(total / 4096 + 64) {
-        chain.push(Limit { size: Some(1 << 22), time: None });
+        chain.push(Limit { size: Some(1 << 22), time: if with_time { Some(Duration::from_secs(3600)) } else { None } });
     }
+    // a signal handler may interrupt the parent's poll (EINTR): the read fails with Interrupted and can be resumed
+    let eintr = rng.chance(250);
     let cfg = Xcfg {
         seed,
         script: ops.join(","),
@@ -167,9 +175,10 @@ fn c03_case(ctx: &mut Ctx, rng: &mut Rng, i: u64) {
         delay_us: if rng.chance(300) { 300 } else { 0 },
         vclock: None,
         max_polls_after_deadline: -1,
-        ops_budget: 0,
+        ops_budget: 8 * (n1 as i64 + n2 as i64 + input_len as i64) + 200_000,
         stop_when_done: true,
         kill_after: false,
+        eintr_permille: if eintr { 40 } else { 0 },
     };
     let x = comm::exchange(ctx, &cfg);
     let fam = if tiny { "tiny-limits" } else if constant { "constant-limit" } else { "changing-limits" };
@@ -201,6 +210,13 @@ fn c03_case(ctx: &mut Ctx, rng: &mut Rng, i: u64) {
             second_stream_cut = true;
         }
         if !r.ok {
+            // a timeout (when a time limit is set) and an interrupted poll are honest outcomes; the exchange is resumed
+            // (a time limit, once set on a Communicator, stays in force for the following reads)
+            let ok_err = (r.err_kind == Some(ErrorKind::TimedOut) && with_time) || (r.err_kind == Some(ErrorKind::Interrupted) && eintr);
+            if ok_err {
+                ctx.count("reads_resumed_after_timeout_or_interruption", 1);
+                continue;
+            }
             ctx.violation(&format!("C03/error/{:?}", r.err_kind), &format!("read #{} failed: {:?}", j, r.err_kind), w(J::Null));
             return;
         }
@@ -264,6 +280,7 @@ fn c04_case(ctx: &mut Ctx, rng: &mut Rng, i: u64) {
             "s4000,x0".to_string()
         }
         "trickle" => {
+            op_cost = if rng.chance(500) { rng.range(20_000, 200_000) as i64 } else { 0 };
             let mut v = vec![];
             for _ in 0..rng.range(3, 25) {
                 v.push(format!("w{}:{}:1", rng.range(1, 2), rng.range(1, 3)));
@@ -273,6 +290,9 @@ fn c04_case(ctx: &mut Ctx, rng: &mut Rng, i: u64) {
             v.join(",")
         }
         "burst-then-silent" => {
+            // with a cost per parent operation, draining the burst takes virtual time: the silence that follows must be
+            // waited for only for what is left of the limit
+            op_cost = if rng.chance(700) { rng.range(20_000, 300_000) as i64 } else { 0 };
             kill_after = rng.chance(500);
             format!("w1:{}:4096,w2:{}:512,s{},w1:{}:4096,x0", rng.range(1, 200_000), rng.range(0, 5000), if kill_after { 4000 } else { rng.range(5, 30) }, rng.range(0, 100_000))
         }
@@ -322,6 +342,7 @@ fn c04_case(ctx: &mut Ctx, rng: &mut Rng, i: u64) {
         }
     }
     let huge_t = t.as_millis() > (1u128 << 31) * 4;
+    let eintr = matches!(kind, "trickle" | "burst-then-silent" | "no-limit-control" | "silent") && rng.chance(300);
     let cfg = Xcfg {
         seed,
         script,
@@ -336,9 +357,10 @@ fn c04_case(ctx: &mut Ctx, rng: &mut Rng, i: u64) {
         delay_us: 0,
         vclock: Some((if huge_t { 1 } else { rng.range(2, 5) as i64 }, op_cost)),
         max_polls_after_deadline: 8,
-        ops_budget: 0,
+        ops_budget: 400_000_000 / 4096 * 8 + 500_000,
         stop_when_done: true,
         kill_after,
+        eintr_permille: if eintr { 60 } else { 0 },
     };
     let x = comm::exchange(ctx, &cfg);
     let w = |extra: J| describe(&cfg, kind).set("reads", reads_json(&x)).set("child_report", J::arr_s(&x.report)).set("events_tail", J::arr_s(&ilog::fmt_tail(&x.events, 14))).set("detail", extra);
@@ -393,12 +415,26 @@ fn c04_case(ctx: &mut Ctx, rng: &mut Rng, i: u64) {
                         return;
                     }
                     ctx.max("overshoot_us", ((elapsed - tn.min(elapsed)) / 1000) as i64);
+                    // on the deterministic clock a correct read gives up within one round of the deadline: one idle poll
+                    // ends at the deadline (ms rounding), one round costs at most 4 charged operations plus clock ticks
+                    let nev = (r.ev_end - r.ev_start) as u128;
+                    let bound = tn + 4 * op_cost.max(0) as u128 + nev * 4_000 + 3 * MS;
+                    if elapsed > bound {
+                        ctx.violation(
+                            &format!("C04/late-timeout/{}", kind),
+                            &format!("read #{} with a limit of {} ns reported the timeout only after {} ns of virtual time (one I/O round costs at most {} ns here)", j, tn, elapsed, 4 * op_cost.max(0)),
+                            w(J::Null),
+                        );
+                        return;
+                    }
                 }
             }
         } else if !r.ok {
-            // other errors: EPIPE when the child closed stdin is legitimate
+            // other errors: EPIPE when the child closed stdin is legitimate; so is an honestly reported interruption
             if r.err_kind == Some(ErrorKind::BrokenPipe) && cfg.input.is_some() {
                 ctx.count("epipe_outcomes", 1);
+            } else if r.err_kind == Some(ErrorKind::Interrupted) && eintr {
+                ctx.count("interrupted_reads_resumed", 1);
             } else {
                 ctx.violation(&format!("C04/error/{:?}", r.err_kind), &format!("read #{} failed with {:?}/{:?}", j, r.err_kind, r.errno), w(J::Null));
                 return;
